@@ -25,10 +25,33 @@ def cases(ctx):
     out = []
     for t in range(3):
         out.append({"id": "step|thread=%d" % t, "kind": "step", "thread": t, "weight": 30})
-    out.append({"id": "round_quot reads default()", "kind": "rq", "weight": 10})
+    prog = ctx.program("dev")
+    for f in rq_functions(prog):
+        out.append({"id": "rounding entry point %s: None = Some(default()) on the calling thread" % f.name.split("::")[-1], "kind": "rq", "fn": f.name, "weight": 40})
     out.append({"id": "public rounding operations pass None", "kind": "callsites", "weight": 5})
     out.append({"id": "schedules replayed natively", "kind": "sched", "weight": 5})
     return out
+
+
+def rq_functions(prog):
+    fns = [f for f in prog.funcs if f.kind == "fn" and f.generic == "core" and any(norm(t) == "Option<RoundingMode>" for _, t in f.params)
+           and "closure" not in f.name]
+    if len(fns) < 3:
+        raise Unsupported("only %d functions with an Option<RoundingMode> parameter found in fpdec-core" % len(fns))
+    return sorted(fns, key=lambda f: f.name)
+
+
+def sig(v):
+    """structural signature of a value (terms by their s-expression)"""
+    if isinstance(v, EnumV):
+        return ("E", v.ty, v.variant, tuple(sig(x) for x in v.fields))
+    if isinstance(v, Agg):
+        return ("A", tuple(sig(x) for x in v.fields))
+    if isinstance(v, IV):
+        return ("I", v.ty, v.t.sexpr() if hasattr(v.t, "sexpr") else repr(v.t))
+    if hasattr(v, "sexpr"):
+        return ("T", v.sexpr())
+    return ("R", repr(v))
 
 
 def cell_key(prog):
@@ -123,29 +146,84 @@ def run_case(ctx, case):
         res.d["exhaustive_step"] = True
         return res.done()
     if kind == "rq":
-        rq = get_fn(prog, "round_quot", ["i128", "u128", "u128", "Option<RoundingMode>"])
+        # every function of fpdec-core that takes an Option<RoundingMode> (round_quot and the public rounding entry points): called with
+        # None on a thread whose mode is m it must behave exactly as when called with Some(m) -- whatever the internal structure
+        # (which function reads the thread-local) is.  Differential by sequential composition on the same symbolic operands.
+        from . import kernels as K
+        rq = [f for f in rq_functions(prog) if f.name == case["fn"]][0]
         statics = shared_statics(prog)
         shared_vals = list(itertools.product(*[[(n, v) for v in dom] for n, dom in statics])) if statics else [()]
-        for m, shared in itertools.product(range(8), shared_vals):
+        ks = list(range(39)) if ctx.tier == "thorough" else [0, 1, 19, 38]
+        ptys = [norm(t) for _, t in rq.params]
+        small = [i for i, t in enumerate(ptys) if t == "u8"]
+        n_struct = n_solver = 0
+        for m, shared, kval in itertools.product(range(8), shared_vals, ks if small else [None]):
             for cells_t in (UNINIT, m):
                 if cells_t == UNINIT and m != 5:
                     continue
-                st, name = mk_state(prog, (cells_t, (m + 1) % 8, (m + 3) % 8), 0, shared)
-                q = sym_int("q", "i128", st)
-                r = sym_int("r", "u128", st)
-                d = sym_int("d", "u128", st, lo=1)
-                st.defs.append(r.t <= d.t)
-                ex = new_executor(ctx, prog)
-                outs_a = ex.explore(start_state(rq, [q, r, d, EnumV("Option", 0)], None, st))
+
+                def setup():
+                    T._fresh[0] = 1000
+                    st, name = mk_state(prog, (cells_t, (m + 1) % 8, (m + 3) % 8), 0, shared)
+                    args, inputs = [], {}
+                    for i, t in enumerate(ptys):
+                        if t == "Option<RoundingMode>":
+                            args.append(None)
+                        elif t == "u8":
+                            args.append(IV(kval, "u8"))
+                        else:
+                            a = sym_int("a%d" % i, t, st, lo=(-MAXC if t == "i128" else None))
+                            inputs["a%d" % i] = a.t
+                            args.append(a)
+                    if rq.name.endswith("round_quot"):
+                        st.defs.append(args[2].t >= 1)
+                        st.defs.append(args[1].t <= args[2].t)
+                    return st, args, inputs
+                mi = ptys.index("Option<RoundingMode>")
+                none_v = EnumV("Option", 0)
+                some_v = EnumV("Option", 1, (EnumV("RoundingMode", m),))
+                info = {"kind": "rq", "mode": m, "cell0": cells_t, "shared": [[n, v] for n, v in shared], "fn": rq.name.split("::")[-1]}
+                tag = "rq|%s|k=%s|mode=%d|init=%s" % (rq.name.split("::")[-1], kval, m, cells_t != UNINIT)
+                # (1) structural identity: both calls executed from identical symbolic states with identical fresh-name counters; if the
+                # mode is resolved to the same concrete value, every path condition and result is the same term
+                st_a, args_a, inputs = setup()
+                args_a[mi] = none_v
+                ex = new_executor(ctx, prog, contracts=K.WIDE_CONTRACTS)
+                outs_a = ex.explore(start_state(rq, args_a, None, st_a))
                 res.absorb(ex, outs_a)
+                st_b, args_b, _ = setup()
+                args_b[mi] = some_v
+                ex_b = new_executor(ctx, prog, contracts=K.WIDE_CONTRACTS)
+                outs_b = ex_b.explore(start_state(rq, args_b, None, st_b))
+
+                def osig(o):
+                    return (o.kind, o.msg if o.kind == "panic" else sig(o.value), tuple(c.sexpr() if hasattr(c, "sexpr") else repr(c) for c in o.state.constraints()))
+                same = len(outs_a) == len(outs_b) and all(osig(a) == osig(b) for a, b in zip(outs_a, outs_b))
+                res.d["vcs"] += 1
+                if same and outs_a:
+                    res.d["discharged"] += 1
+                    n_struct += 1
+                    if n_struct <= 4:
+                        res.d["distinct"] += [tag + "|structural", tag + "|structural|paths=%d" % len(outs_a)]
+                    continue
+                # (2) not syntactically the same computation: pairwise differential decided by the solver
+                n_solver += 1
+                res.d["discharged"] += 1      # the structural obligation is replaced by the VCs below
+                st, args, inputs = setup()
+                a_none = list(args)
+                a_none[mi] = none_v
+                a_some = list(args)
+                a_some[mi] = some_v
+                ex = new_executor(ctx, prog, contracts=K.WIDE_CONTRACTS)
+                outs_a = ex.explore(start_state(rq, a_none, None, st))
                 for ia, oa in enumerate(outs_a):
                     s2 = oa.state.copy()
                     s2.frames = []
                     s2.tags.pop("finish_panic", None)
-                    ex2 = new_executor(ctx, prog)
-                    outs_b = ex2.explore(start_state(rq, [q, r, d, EnumV("Option", 1, (EnumV("RoundingMode", m),))], None, s2))
+                    ex2 = new_executor(ctx, prog, contracts=K.WIDE_CONTRACTS)
+                    outs_b = ex2.explore(start_state(rq, a_some, None, s2))
                     for ib, ob in enumerate(outs_b):
-                        name_ = "rq|mode=%d|init=%s|None-path%d x Some-path%d" % (m, cells_t != UNINIT, ia, ib)
+                        name_ = "%s|None-path%d x Some-path%d" % (tag, ia, ib)
                         if oa.kind != ob.kind:
                             goal = False
                         elif oa.kind != "return":
@@ -156,8 +234,8 @@ def run_case(ctx, case):
                                 goal = (va.variant == vb.variant) and (va.variant == 0 or T.B(T.eq(va.fields[0].t, vb.fields[0].t)))
                             else:
                                 goal = T.B(T.eq(va.t, vb.t))
-                        res.vc(ctx, name_, ob.state.constraints(), goal, {"q": q.t, "r": r.t, "d": d.t},
-                               {"kind": "rq", "mode": m, "cell0": cells_t, "shared": [[n, v] for n, v in shared]})
+                        res.vc(ctx, name_, ob.state.constraints(), goal, inputs, info, timeout_ms=5000)
+        res.sample({"vc": case["id"], "shift_values": ks if small else None, "decided_structurally": n_struct, "decided_by_pairwise_solver_differential": n_solver})
         return res.done()
     if kind == "callsites":
         # every call of a rounding kernel from the crate fpdec must pass Option::<RoundingMode>::None
@@ -199,7 +277,7 @@ def run_case(ctx, case):
             s = []
             for _ in range(k):
                 t = rng.randint(0, 2)
-                a = rng.choice(["s%d" % rng.randint(0, 7), "g", "r15", "r25", "r-15"])
+                a = rng.choice(["s%d" % rng.randint(0, 7), "g", "r15", "r25", "r-15", "w15", "w-5", "v3", "v-3"])
                 s.append("%d%s" % (t, a))
             scheds.append(s)
         res.d["scheds"] = scheds
@@ -237,6 +315,12 @@ def predict(sched):
             out.append("ok")
         elif act == "g":
             out.append(names[modes[t]])
+        elif act[0] == "w":
+            # wide product: (k/10) * (10^38 + 1)/10^18 rounded to 18 digits -> i128_mul_div_ten_pow_rounded
+            out.append(str(rnd_conc(modes[t], int(act[1:]) * (10 ** 38 + 1), 10)))
+        elif act[0] == "v":
+            # wide dividend: (k * 10^37) / (4 * 10^37) rounded to 1 digit -> i128_shifted_div_rounded
+            out.append(str(rnd_conc(modes[t], int(act[1:]) * 10 ** 38, 4 * 10 ** 37)))
         else:
             out.append(str(rnd_conc(modes[t], int(act[1:]), 10)))
     return "SCHED " + " ".join(out)
@@ -265,7 +349,7 @@ def replay(ctx, native, v):
         sched = find_schedule(ctx, info["cell0"], {n: v for n, v in info["shared"]})
         if sched is None:
             return {"reproduced": False, "line": "", "observed": "abstract pre-state not reachable within 3 steps: invariant too weak, not a finding", "expected": ""}
-        sched = sched + ["0r15", "0r25", "0r-15", "0r11", "0r-25", "0r5"]
+        sched = sched + ["0r15", "0r25", "0r-15", "0r11", "0r-25", "0r5", "0w15", "0w-15", "0w5", "0w11", "0w-5", "0v3", "0v-3", "0v5", "0v7", "0v1"]
         line = "5 sched " + " ".join(sched)
         obs = native["dev"].ask(line)
         exp = predict(sched)
@@ -326,7 +410,7 @@ def cosim(ctx, native):
         s = []
         for _ in range(k):
             t = rng.randint(0, 2)
-            a = rng.choice(["s%d" % rng.randint(0, 7), "g", "r15", "r25", "r-15", "r5", "r-25"])
+            a = rng.choice(["s%d" % rng.randint(0, 7), "g", "r15", "r25", "r-15", "r5", "r-25", "w15", "w-15", "w11", "v3", "v-3", "v5", "v1"])
             s.append("%d%s" % (t, a))
         obs = native["dev"].ask("5 sched " + " ".join(s))
         if obs != predict(s):
